@@ -466,6 +466,7 @@ Definition wf_graph_b (g : graph) (rank : nat -> nat) : bool :=
 
 Definition wf_snap_b (g : graph) (sn : snapshot) : bool :=
   forallb (fun e =>
+    (if sn_oready sn e then forallb (sn_oready sn) (ins g e) else true) &&
     match sn_want sn e with
     | None => true
     | Some w =>
